@@ -199,15 +199,18 @@ class Dataset(AbstractDataset, dict, OpMixin, GetSetDelAttrMixin):
         val._axes = copy.deepcopy(val.axes)
 
         # Check dimensions
-        # make sure axes match those of the dataset
-        for i, newaxis in enumerate(val.axes):
-
-            # Check dimensions if already existing axis
+        # make sure axes match those of the dataset (before modifying anything)
+        for newaxis in val.axes:
             if newaxis.name in [ax.name for ax in self.axes]:
                 existing_axis = self.axes[newaxis.name]
                 if not newaxis == existing_axis:
                     raise ValueError("axes values do not match, align data first.\
                             \nDataset: {}, \nGot: {}".format(existing_axis, newaxis))
+
+        for i, newaxis in enumerate(val.axes):
+
+            if newaxis.name in [ax.name for ax in self.axes]:
+                existing_axis = self.axes[newaxis.name]
 
                 # assign the Dataset axis : they all must share the same axis
                 val.axes[i] = existing_axis
